@@ -12,11 +12,18 @@ OBLIGATIONS = [
     "NanoVerif.C19.reuse_taken_solid",
     "NanoVerif.C19.reuse_taken_gradient",
     "NanoVerif.C19.only_disable_disables",
+    "NanoVerif.C19.registered_after",
+    "NanoVerif.C19.later_copy_shares",
+    "NanoVerif.C19.disabled_draws",
 ]
 DESIGN_REF = "DESIGN.md §5 C19"
 LEVEL_TEXT = ("Partial, oracle-relative. Proved in Lean for every answer of the reuse oracle: an offered donor is always taken (the migrated paint "
               "refers to the donor outline, no new outline) for solid children and, for gradient children, whenever the counter-transform fits "
-              "Fixed 16.16; any tolerance other than -1 uses the cache. NOT proved: that picosvg's normalize/affine_between recognise every "
+              "Fixed 16.16; any tolerance other than -1 uses the cache. Across a whole font (Model/ReuseSeq: the cache as normal form -> last "
+              "registered glyph, driven shape by shape): after a shape is migrated the entry of its normal form is the outline it was painted "
+              "with (registered_after), hence a later copy of the same normal form — any number of other shapes in between — is painted with "
+              "that same outline whenever the oracle's affine fits 16.16 and the fill can be expressed (later_copy_shares). The sequence model "
+              "is tied to the real GlyphReuseCache + _migrate_paths_to_ufo_glyphs under a scripted normalize/affine_between. NOT proved: that picosvg's normalize/affine_between recognise every "
               "congruent copy (third party). That half is sampled on real builds: shapes of the generator grammar (polygons, blobs, ellipses, "
               "rings) copied under translations, rotations by arbitrary angles and mirrors, within and across glyphs, viewBox >= 24, tolerances "
               "{0.1, 0.25, 1}; COLRv0/COLRv1 must draw all copies from one outline glyph (composites flattened) and OT-SVG through <use> of one path.")
@@ -128,6 +135,134 @@ def count_outlines(case, out):
                 walk(sc.base)
     return len(names), 0
 
+
+
+def suite_migrate_seq(ctx, res, n):
+    """Tie for Model/ReuseSeq.lean `migrateStep` / `migrateAll` (theorems registered_after, later_copy_shares, disabled_draws): the REAL
+    GlyphReuseCache and the REAL write_font._migrate_paths_to_ufo_glyphs on a colour glyph with several PaintGlyph layers, with picosvg's
+    `normalize` / `affine_between` replaced by a script (normal form = a key chosen per shape; the affine between two shapes of one key
+    follows from their scripted sizes and positions, or is None).  Exact arithmetic (Fraction) on both sides."""
+    from fractions import Fraction as F
+    from nanoemoji import config as nconfig, write_font, glyph_reuse
+    from nanoemoji.color_glyph import ColorGlyph
+    from nanoemoji.paint import (PaintGlyph, PaintSolid, PaintLinearGradient, PaintTransform, PaintColrLayers, ColorStop, Extend, is_transform)
+    from nanoemoji.colors import Color
+    from picosvg.svg import SVG
+    from picosvg.svg_types import SVGPath
+    from picosvg.svg_transform import Affine2D
+    from picosvg.geometric_types import Point
+    from harness.common import fr
+    from harness import cli
+
+    rng = ctx.rng
+    cfg = nconfig.FontConfig(family="V", color_format="glyf_colr_1", masters=(nconfig.MasterConfig("Regular", "Regular", "x.ufo", (), ()),))
+    stops = (ColorStop(0.0, Color.fromstring("red")), ColorStop(1.0, Color.fromstring("blue")))
+    orig_ab, orig_norm = glyph_reuse.affine_between, glyph_reuse.normalize
+    ops, reals, metas = [], [], []
+    try:
+        for case_i in range(n):
+            tol = rng.choice([F(1, 10), F(1, 10), F(1, 20), F(-1)])
+            nshapes = rng.randint(2, 6)
+            nkeys = rng.randint(1, 2)
+            shapes = []
+            for i in range(nshapes):
+                key = rng.randrange(nkeys)
+                scale = rng.choice([F(1), F(1), F(1, 70000), F(1, 70000), F(1, 2), F(40000)])
+                tx, ty = F(rng.randint(-300, 300)), F(rng.randint(-300, 300))
+                kind = rng.choice(["solid", "lin", "lin", "tlin"])
+                if kind == "solid":
+                    child = PaintSolid(color=Color.fromstring("red", alpha=0.5))
+                    cj = {"k": "solid", "c": str(i), "a": "1/2"}
+                else:
+                    pts = [rng.randint(-100, 900) for _ in range(6)]
+                    if (pts[2] - pts[0]) * (pts[5] - pts[1]) - (pts[3] - pts[1]) * (pts[4] - pts[0]) == 0:
+                        pts[5] += 13
+                    child = PaintLinearGradient(stops=stops, extend=Extend.PAD, p0=Point(F(pts[0]), F(pts[1])), p1=Point(F(pts[2]), F(pts[3])), p2=Point(F(pts[4]), F(pts[5])))
+                    cj = {"k": "lin", "g": [str(v) for v in pts], "l": str(i)}
+                    if kind == "tlin":
+                        m = (rng.choice([F(1), F(1, 2)]), F(0), rng.choice([F(0), F(1, 4)]), rng.choice([F(1), F(3, 2)]), rng.randint(-50, 50), rng.randint(-50, 50))
+                        child = PaintTransform(paint=child, transform=tuple(m))
+                        cj = {"k": "transform", "m": [fr(v) for v in m], "p": cj}
+                # a distinct triangle per shape: the d-string identifies the shape on the real side
+                d = f"M{10 + i},{20 + 2 * i} L{40 + 3 * i},{25 + i} L{15 + i},{60 + 5 * i} Z"
+                shapes.append({"key": key, "scale": scale, "tx": tx, "ty": ty, "child": child, "cj": cj, "d": d})
+            no_affine = {(a, b) for a in range(nshapes) for b in range(nshapes) if a != b and rng.random() < 0.1}
+
+            def aff(a, b):
+                if (a, b) in no_affine:
+                    return None
+                s = shapes[b]["scale"] / shapes[a]["scale"]
+                return (s, F(0), F(0), s, shapes[b]["tx"] - s * shapes[a]["tx"], shapes[b]["ty"] - s * shapes[a]["ty"])
+
+            ufo = write_font._ufo(cfg)
+            cg = ColorGlyph.create(cfg, ufo, "s.svg", 1, "g", (0xE000,), SVG.fromstring(cli.simple_svg(1)).topicosvg())
+            to_font = cg.transform_for_font_space()
+            by_font_d = {SVGPath(d=s_["d"]).apply_transform(to_font).d: i for i, s_ in enumerate(shapes)}
+            cg = cg._replace(painted_layers=(PaintColrLayers(tuple(PaintGlyph(glyph=s_["d"], paint=s_["child"]) for s_ in shapes)),))
+            glyph_reuse.normalize = lambda path, tolerance: type("P", (), {"d": "K%d" % shapes[by_font_d[path.d]]["key"]})()
+
+            def scripted_between(s1, s2, tolerance):
+                a, b = by_font_d[s1.d], by_font_d[s2.d]
+                t = aff(a, b)
+                return None if t is None else Affine2D(*t)
+
+            glyph_reuse.affine_between = scripted_between
+            cache = glyph_reuse.GlyphReuseCache(float(tol))
+            created = []
+            orig_add = cache.add_glyph
+
+            def add_glyph(name, path, _orig=orig_add):
+                created.append(name)
+                return _orig(name, path)
+
+            cache.add_glyph = add_glyph
+
+            def to_json(p):
+                if isinstance(p, PaintSolid):
+                    return {"k": "solid", "c": None, "a": fr(F(p.color.alpha))}
+                if isinstance(p, PaintLinearGradient):
+                    return {"k": "lin", "g": [fr(F(v)) for v in (*p.p0, *p.p1, *p.p2)], "l": None}
+                if isinstance(p, PaintGlyph):
+                    return {"k": "glyph", "o": str(created.index(p.glyph)) if p.glyph in created else "?" + p.glyph, "p": to_json(p.paint)}
+                if is_transform(p):
+                    return {"k": "transform", "m": [fr(F(v)) for v in p.gettransform()], "p": to_json(p.paint)}
+                raise ValueError(type(p).__name__)
+
+            try:
+                out = write_font._migrate_paths_to_ufo_glyphs(cg, cache)
+                layers = out.painted_layers[0].layers
+                real = {"paints": [to_json(p) for p in layers], "next": len(created)}
+            except Exception as e:  # noqa
+                real = {"exc": type(e).__name__ + ":" + str(e)[:120]}
+            table = [[a, b, None if aff(a, b) is None else [fr(v) for v in aff(a, b)]] for a in range(nshapes) for b in range(nshapes) if a != b]
+            ops.append({"op": "migrate-seq", "tol": fr(tol), "shapes": [{"key": str(s_["key"]), "child": s_["cj"]} for s_ in shapes], "between": table})
+            reals.append(real)
+            metas.append({"tol": str(tol), "shapes": [{"key": s_["key"], "scale": str(s_["scale"]), "child": s_["cj"]["k"]} for s_ in shapes],
+                          "no_affine": sorted(no_affine)})
+    finally:
+        glyph_reuse.affine_between, glyph_reuse.normalize = orig_ab, orig_norm
+
+    def strip(j):
+        # the model tags every fill with the index of its shape (solid colour / colour line number); the real paints do not carry it
+        if isinstance(j, dict):
+            return {k: (None if k in ("c", "l") else strip(v)) for k, v in j.items()}
+        return j
+
+    for meta, real, m in zip(metas, reals, ctx.driver.run(ops)):
+        res.count(key=("migrate-seq", stable_hash(meta)), nontrivial=len(meta["shapes"]) >= 3)
+        if "exc" in real:
+            res.stat("migrate-seq:exc")
+            res.add_tie_break("_migrate_paths_to_ufo_glyphs over a sequence raised", meta, m, real)
+            continue
+        res.stat("migrate-seq:outlines=%d/%d" % (real["next"], len(meta["shapes"])))
+        mm = {"paints": [strip(p) for p in m.get("paints", [])], "next": int(m["next"]) if "next" in m else None}
+        if mm != real:
+            res.add_tie_break("GlyphReuseCache + _migrate_paths_to_ufo_glyphs over a sequence of shapes vs Model migrateAll", meta, mm, real)
+            # the property's side (theorem later_copy_shares): the model reuses where the real code drew a new outline
+            if mm["next"] is not None and real["next"] > mm["next"]:
+                res.add_cex(f"{len(meta['shapes'])} shapes are stored as {real['next']} outlines where the cache discipline (every migrated shape's normal form "
+                            f"points at the outline it was painted with) gives {mm['next']}", {"call": "_migrate_paths_to_ufo_glyphs", "case": meta, "real": real, "model": mm},
+                            {"site": "c19-cache-seq", "case": stable_hash(meta)})
 
 
 def suite_try_reuse(ctx, res, n):
@@ -279,11 +414,15 @@ def run(ctx, res):
                 "format, plus rotate (17..271 deg) / rot90 / mirrors for rectangles in the COLR formats (the classes "
                 "that hold on the unchanged tree; other classes are known findings with frozen witnesses); viewBox in {24,48,100,128}; tolerance in {0.1,0.25,1}; formats glyf_colr_1, glyf_colr_0, picosvg; every case non-trivial")
     suite_try_reuse(ctx, res, ctx.budget(400, 8000))
+    suite_migrate_seq(ctx, res, ctx.budget(150, 3000))
     suite(ctx, res, ctx.budget(60, 1500))
     suite_big_tiny(ctx, res, ctx.budget(8, 120))
 
 
 def search(ctx, res, broken):
+    nano.init()
+    suite_migrate_seq(ctx, res, 1500)
+    suite_big_tiny(ctx, res, 40)
     suite(ctx, res, 300)
 
 
